@@ -36,6 +36,41 @@ fn long_contexts(kind: &str) -> Vec<&'static [u8]> {
     }
 }
 
+/// Repetition family (C05): one construct repeated N times at every position where the grammar
+/// loops - comment lines, blank lines (LF and CRLF), blanks, continuation lines of one clause,
+/// clauses, value lines, unknown lines. Per-repetition stack frames (recursion instead of a loop)
+/// or retained allocations show as a stack overflow / heap bound violation.
+fn repetition_docs(kind: &str, n: usize) -> Vec<generic::Doc> {
+    let (header, clause, open): (&[u8], &[u8], &[u8]) = match kind {
+        "cnf" => (b"p cnf 1 1\n", b"1 0\n", b""),
+        "wcnf" => (b"p wcnf 1 1 9\n", b"5 1 0\n", b"5 "),
+        "gcnf" => (b"p gcnf 1 1 1\n", b"{1} 1 0\n", b"{1} "),
+        _ => (b"s SATISFIABLE\n", b"v 1 0\n", b"v "),
+    };
+    let mut v = Vec::new();
+    let fillers: [(&str, &[u8]); 7] = [("comment", b"c x\n"), ("bare-comment", b"c\n"), ("blank", b"\n"), ("crlf-blank", b"\r\n"), ("space", b" "), ("tab-blank", b"\t\n"), ("crlf-comment", b"c x\r\n")];
+    for (fname, filler) in fillers {
+        // in front of everything, between header and first statement, behind the last statement
+        v.push(generic::repeat_doc(&format!("{kind}/{fname}/front"), b"", filler, n, &[header, clause].concat()));
+        v.push(generic::repeat_doc(&format!("{kind}/{fname}/after-header"), header, filler, n, clause));
+        v.push(generic::repeat_doc(&format!("{kind}/{fname}/trailer"), &[header, clause].concat(), filler, n, b""));
+        v.push(generic::repeat_doc(&format!("{kind}/{fname}/headerless-trailer"), clause, filler, n, b""));
+        // inside an open clause / value line
+        v.push(generic::repeat_doc(&format!("{kind}/{fname}/in-clause"), &[header, open, b"1"].concat(), filler, n, b" 0\n"));
+    }
+    // continuation lines of one clause, many clauses / value lines, unknown lines
+    v.push(generic::repeat_doc(&format!("{kind}/continuation-lines"), &[header, open].concat(), b"1\n", n, b"0\n"));
+    v.push(generic::repeat_doc(&format!("{kind}/continuation-lines-headerless"), open, b"-1\n", n, b"0\n"));
+    v.push(generic::repeat_doc(&format!("{kind}/statements"), b"", clause, n, b""));
+    v.push(generic::repeat_doc(&format!("{kind}/literals"), open, b"1 ", n, b"0\n"));
+    if kind == "log" {
+        v.push(generic::repeat_doc("log/unknown-lines", b"", b"x\n", n, b"s UNSATISFIABLE\n"));
+        v.push(generic::repeat_doc("log/value-lines", b"s SATISFIABLE\n", b"v 1\n", n, b"v 0\n"));
+        v.push(generic::repeat_doc("log/status-lines", b"", b"s UNKNOWN\n", n, b""));
+    }
+    v
+}
+
 /// Long offending tokens as light-schedule documents for the chunking checks.
 fn long_token_light(kind: &str) -> Vec<generic::Doc> {
     generic::long_token_docs(&long_contexts(kind)).into_iter().map(|d| generic::Doc::new(format!("~{}", d.name), d.bytes)).collect()
@@ -138,6 +173,12 @@ fn main() {
             let mut groups = Vec::new();
             for kind in subjects::KINDS {
                 let subs = subjects::subjects(kind, &lits_for(tier), &flags_for(kind, tier));
+                if generic::deep_profile() {
+                    // unoptimised build: the repetition family only (see generic::deep_profile)
+                    groups.push((format!("{kind}-repetitions"), subjects::subjects(kind, &["i32"], &flags_for(kind, tier)), repetition_docs(kind, 300_000)));
+                    continue;
+                }
+                groups.push((format!("{kind}-repetitions"), subjects::subjects(kind, &["i32"], &flags_for(kind, tier)), repetition_docs(kind, tier.pick(100_000, 300_000))));
                 let inp = gen::inputs_seq(kind, tier, tier.pick(3, 4));
                 sample_docs(&mut report, kind, &inp.sequences);
                 let mut docs = inp.all();
@@ -149,7 +190,7 @@ fn main() {
             }
             generic::c05_isolated(&groups, tier.pick(40.0, 1500.0), &mut report);
             report.traces = report.evaluations;
-            "every document of the generated families x every subject x {one-shot, byte-wise}, each (subject, document) unit run in an isolated single-threaded worker process: the run must return a value (no panic incl. overflow / debug assertion in the checked build, no abort, no stack overflow, no hang), within 2 s, with peak requested heap <= 64 x consumed bytes + 2 MiB + 4 chunks (counting allocator, per thread). Non-trivial: every case (each is a distinct input x subject)".into()
+            "every document of the generated families x every subject x {one-shot, byte-wise}, each (subject, document) unit run in an isolated single-threaded worker process: the run must return a value (no panic incl. overflow / debug assertion in the checked build, no abort, no stack overflow, no hang), within 2 s, with peak requested heap <= 64 x consumed bytes + 2 MiB + 4 chunks (counting allocator, per thread). Non-trivial: every case (each is a distinct input x subject). Repetition family: one construct (comment line, blank line, CRLF, blanks, continuation line, clause, value line, unknown line) repeated 100 000 - 300 000 times at every looping position; the quick tier runs it in the UNOPTIMISED profile as well (opt-level 0: recursion that an optimiser turns into a loop overflows the stack only there)".into()
         }
         "C08" => {
             for kind in subjects::KINDS {
